@@ -71,6 +71,22 @@ check("C08", "exploration",
       "Trusted: definition of the equivalent call (numbered-named form; values without surrounding blanks for callParserFunction); fixtures as in C14.",
       "DESIGN.md §3 C08")
 
+check("C05", "exploration",
+      EXH + "a totality/termination oracle under a per-case watchdog and address-space limit: all call graphs on <= 3 templates x edge realisations x starts, depth towers, every parser function x argument vectors, every #expr token string",
+      "All 530 digraphs with self-loops on 1..3 templates x 4 ways of realising an edge x every start, ring/chain families on 4-5 templates and nesting towers to depth 120 must return a string, with an error element and a recorded message exactly when a cycle is reachable (else the reference expansion); every parser function (142) x every argument vector of length <= 2 (thorough 3) over 12 atoms on 4 page titles in both call forms, and every #expr token string of length <= 3 (thorough 4) over all operators must return a string without raising. Hangs and memory exhaustion are results, not harness failures.",
+      "Trusted: watchdog (3 s in-process for pure-Python loops, 20 s process kill), RLIMIT_AS 4 GiB. Network-backed functions and #invoke excluded.",
+      "DESIGN.md §3 C05")
+check("C17", "exploration",
+      EXH + "a least-fixpoint reference over the inclusion graph (plus one redirect step)",
+      "Every inclusion digraph on 1..3 templates (thorough: all 65536 on 4) x every flag set x every redirect placement x naming schemes, and 8 graph families on 5..8 templates, run through the real analyze_templates() with a harness classifier; the need_pre_expand column must equal the fixpoint exactly, other namespaces stay untouched, and the call must return (5 s alarm).",
+      "Trusted: sequential reading of the redirect clause; classifier returns names as stored.",
+      "DESIGN.md §3 C17")
+check("C12", "exploration",
+      EXH + "a dict reference store built from the generator's page list and the documented filter",
+      "Generated .xml.bz2 dumps (all 38 non-negative namespaces x 9 title shapes x 11 body shapes x 6 models x redirect yes/no; every namespace x 4 selection sets; every ordered pair of a 28-page collision catalogue) are ingested by the real parse_dump_xml + add_default_templates and get_all_pages() must equal the reference set of (title, ns, body, model, redirect).",
+      "Trusted: the generator's XML writer, the reference filter and includable-part function.",
+      "DESIGN.md §3 C12")
+
 NOT_APPLICABLE = {}
 for i in range(1, 21):
     pid = "C%02d" % i
